@@ -133,3 +133,24 @@ func c11srFull(withEvap bool) {
 // H_C11_sr_bias_sqrt: m = 1/2 with inflow bias in [0.001, 0.5], no evaporation.
 //vsym:prop=C11 tier=quick ints=int floats=real timeout=120
 func H_C11_sr_bias_sqrt() { c11srFull(false) }
+
+// H_C11_sr_setup_sqrt: zero inflow bias and m = 1/2 THROUGH storageRouting: the step it performs
+// is exactly calcOutflow with the limiting-flow constants the scheme prescribes for bias 0 and
+// m <= 1 (Klimit = k, Qlimit = 0, Koffset = 0) - the constants the calcOutflow-level harnesses
+// above are run with; so their results (non-negativity, balance, S = k*Q^m + dead) are results
+// about storageRouting and not about a transcription of its set-up.
+//vsym:prop=C11 tier=quick ints=int floats=real timeout=120
+func H_C11_sr_setup_sqrt() {
+	vsym.Summarise("FindRoot")
+	inflow, lateral := vsym.Float64("inflow"), vsym.Float64("lateral")
+	prevIn, prevOut, prevS := vsym.Float64("prevInflow"), vsym.Float64("prevOutflow"), vsym.Float64("prevStorage")
+	k, dead, dt := vsym.Float64("k"), vsym.Float64("deadStorage"), vsym.Float64("dt")
+	vsym.Assume(inflow >= 0 && lateral >= 0 && prevS >= 0 && prevOut >= 0 && prevIn >= 0)
+	vsym.Assume(k > 0 && k <= 1000000 && dead >= 0 && dt >= 1 && dt <= 86400)
+	o, st := rtOut(1), rtOut(1)
+	storageRouting(c12one(inflow), c12one(lateral), c12one(0), c12one(0), prevS, prevIn, prevOut, 0, k, 0.5, 0, dead, dt, o, st)
+	_, eo, es := calcOutflow(0, inflow, lateral, 0, 0, prevOut, prevS, 0, 0, dead, dt, 0.5, k, 0, k, 0)
+	vsym.Reach("returned")
+	vsym.AssertNear(o.Get1(0), eo, 1e-12, 1e-12, "step-is-calcOutflow-with-the-prescribed-constants")
+	vsym.AssertNear(st.Get1(0), es, 1e-12, 1e-12, "step-is-calcOutflow-with-the-prescribed-constants")
+}
